@@ -1026,6 +1026,11 @@ class Flow(object):
                     info = self.atom_info.get(m[0])
                     if info and info[0] == "len" and v.const_value() == 0:
                         return [lt(v, u, why)]
+                    # a remainder by a positive constant is >= 0 as well
+                    if info and info[0] == "mod" and \
+                            v.const_value() == 0 and info[2].is_const() and \
+                            info[2].const_value() > 0:
+                        return [lt(v, u, why)]
         return []
 
     # -- axioms for composite atoms ------------------------------------------------
